@@ -125,6 +125,7 @@ type Worker struct {
 	chanCnt     int
 	sched       *scheduler
 	onceDone    map[string]bool
+	randConcrete bool
 	lits        map[int]bool // term id → value asserted on this path
 }
 
@@ -177,6 +178,7 @@ func (w *Worker) resetPath(prefix []Decision) {
 	w.chanCnt = 0
 	w.sched = nil
 	w.onceDone = nil
+	w.randConcrete = false
 	w.lits = map[int]bool{}
 	w.sol.NewPath()
 }
